@@ -430,6 +430,7 @@ fn ast_docs(n: usize) -> Vec<String> {
         extra_indent: false,
         blank: true,
         rich: false,
+        short_unwrap: false,
     };
     let mut all: Vec<String> = vec![];
     let d = Delims { ds: "{DS}", de: "{DE}" };
@@ -440,7 +441,7 @@ fn ast_docs(n: usize) -> Vec<String> {
         let mut ch = Chooser::new(script.clone());
         let items = gen::gen_doc(&mut ch, &p);
         if i % 997 == 500 && gen::size(&items) >= 5 {
-            let rd = gen::render(&items, &RenderOpts { d: &d, names: &names, unit: "  ", tag_ids: false, final_newline: true });
+            let rd = gen::render(&items, &RenderOpts { d: &d, names: &names, unit: "  ", tag_ids: false, final_newline: true, plain: false });
             all.push(rd.src);
             if all.len() >= n {
                 break;
